@@ -1,6 +1,278 @@
 //! Filter operations (C07, C08, C09).
+use crate::absval::{alpha, cps, gamma_tags, text_of};
+use crate::util::{guarded, short, Out, Rng};
+use crate::worker::Worker;
+use libhaystack::defs::namespace::DEFAULT_NS;
+use libhaystack::filter::eval::EvalContext;
+use libhaystack::filter::nodes::*;
+use libhaystack::filter::path::Path;
+use libhaystack::filter::{Eval, Filter, Filtered, ListFiltered, PathResolver};
+use libhaystack::val::*;
 use serde_json::{json, Value as J};
 
-pub fn worker_parse(_req: &J) -> J {
-    json!({"outcome":"err","msg":"not implemented"})
+fn path_json(p: &Path) -> J {
+    J::Array(p.iter().map(|id| cps(&id.to_string())).collect())
+}
+
+fn term_json(t: &Term) -> J {
+    match t {
+        Term::Parens(p) => json!({"t":"parens","f":or_json(&p.or)}),
+        Term::Has(h) => json!({"t":"has","path":path_json(&h.path)}),
+        Term::Missing(m) => json!({"t":"missing","path":path_json(&m.path)}),
+        Term::IsA(i) => json!({"t":"isa","sym":cps(&i.symbol.value)}),
+        Term::WildcardEq(w) => json!({"t":"weq","path":path_json(&w.id),"ref":alpha(&Value::Ref(w.ref_value.clone()))}),
+        Term::Relation(r) => json!({"t":"rel","rel":cps(&r.rel.value),
+            "term": match &r.rel_term { Some(s) => json!([cps(&s.value)]), None => json!([]) },
+            "ref": match &r.ref_value { Some(x) => json!([alpha(&Value::Ref(x.clone()))]), None => json!([]) }}),
+        Term::Cmp(c) => {
+            let op = match c.op {
+                CmpOp::Eq => "==",
+                CmpOp::NotEq => "!=",
+                CmpOp::LessThan => "<",
+                CmpOp::LessThanEq => "<=",
+                CmpOp::GreatThan => ">",
+                CmpOp::GreatThanEq => ">=",
+            };
+            json!({"t":"cmp","path":path_json(&c.path),"op":op,"val":alpha(&c.value)})
+        }
+    }
+}
+
+pub fn or_json(or: &Or) -> J {
+    json!({"ors": or.ands.iter().map(|a| J::Array(a.terms.iter().map(term_json).collect())).collect::<Vec<J>>()})
+}
+
+fn no_tree() -> J {
+    json!({"ors":[]})
+}
+
+/// executed in the worker: parse, print, re-parse
+pub fn worker_parse(req: &J) -> J {
+    let bytes: Vec<u8> = req["bytes"].as_array().map(|a| a.iter().map(|x| x.as_u64().unwrap_or(0) as u8).collect()).unwrap_or_default();
+    let text = match String::from_utf8(bytes) {
+        Ok(t) => t,
+        Err(_) => return json!({"outcome":"err","msg":"not utf8","tree":no_tree(),"printed":[],"reparse":{"outcome":"skipped","tree":no_tree()}}),
+    };
+    match guarded(|| Filter::try_from(text.as_str())) {
+        Ok(Ok(f)) => {
+            let printed = guarded(|| f.to_string());
+            let (pj, rp) = match &printed {
+                Ok(s) => {
+                    let s2 = s.clone();
+                    let r = match guarded(|| Filter::try_from(s2.as_str())) {
+                        Ok(Ok(f2)) => json!({"outcome":"ok","tree":or_json(&f2.or)}),
+                        Ok(Err(e)) => json!({"outcome":"err","msg":short(&e.to_string()),"tree":no_tree()}),
+                        Err(p) => json!({"outcome":"panic","msg":short(&p),"tree":no_tree()}),
+                    };
+                    (cps(s), r)
+                }
+                Err(_) => (json!([]), json!({"outcome":"panic","msg":"Display panicked","tree":no_tree()})),
+            };
+            json!({"outcome":"ok","msg":"","tree":or_json(&f.or),"printed":pj,"reparse":rp})
+        }
+        Ok(Err(e)) => json!({"outcome":"err","msg":short(&e.to_string()),"tree":no_tree(),"printed":[],"reparse":{"outcome":"skipped","tree":no_tree()}}),
+        Err(p) => json!({"outcome":"panic","msg":short(&p),"tree":no_tree(),"printed":[],"reparse":{"outcome":"skipped","tree":no_tree()}}),
+    }
+}
+
+/// a caller-supplied resolver over a small database of records; refs may form cycles
+pub struct DbResolver {
+    pub db: Vec<Dict>,
+}
+
+impl PathResolver for DbResolver {
+    fn resolve_for(&self, root: &Dict, path: &Path) -> Value {
+        // a->b: look b up in the dict, or in the record the Ref names
+        let mut cur: Value = Value::Dict(root.clone());
+        let mut hops = 0;
+        for seg in path.iter() {
+            let d = match &cur {
+                Value::Dict(d) => d.clone(),
+                Value::Ref(r) => match self.resolve_ref(r) {
+                    Some(d) => d,
+                    None => return Value::Null,
+                },
+                _ => return Value::Null,
+            };
+            hops += 1;
+            if hops > 64 {
+                return Value::Null;
+            }
+            cur = d.get(&seg.to_string()).cloned().unwrap_or(Value::Null);
+            if cur.is_null() {
+                break;
+            }
+        }
+        cur
+    }
+    fn resolve(&self, _path: &Path) -> Value {
+        Value::Null
+    }
+    fn resolve_ref(&self, reference: &Ref) -> Option<Dict> {
+        self.db.iter().find(|d| d.get_ref("id").map(|r| r.value == reference.value).unwrap_or(false)).cloned()
+    }
+}
+
+fn parse_via(wk: &mut Worker, text: &str) -> J {
+    let b: Vec<J> = text.as_bytes().iter().map(|x| J::from(*x)).collect();
+    match wk.call(&json!({"w":"filter.parse","bytes":b}), 3000) {
+        Ok(j) => j,
+        Err(f) => json!({"outcome":f,"msg":"","tree":no_tree(),"printed":[],"reparse":{"outcome":"skipped","tree":no_tree()}}),
+    }
+}
+
+fn truth(r: Result<bool, String>) -> J {
+    match r {
+        Ok(b) => J::from(if b { "T" } else { "F" }),
+        Err(_) => J::from("panic"),
+    }
+}
+
+pub fn run(vec: &J, out: &mut Out, wk: &mut Worker) -> Result<(), String> {
+    let op = vec["op"].as_str().unwrap_or("");
+    match op {
+        "filter.parse" => {
+            let texts = vec["texts"].as_array().ok_or("texts")?;
+            let mut seen = std::collections::HashSet::new();
+            for t in texts {
+                let text = text_of(t)?;
+                if !seen.insert(text.clone()) {
+                    continue;
+                }
+                let r = parse_via(wk, &text);
+                out.emit(json!({"op":"filter.parse","f":vec["f"],"text":t,"outcome":r["outcome"],"msg":r["msg"],"tree":r["tree"],
+                    "printed":r["printed"],"reparse":r["reparse"]}));
+            }
+            Ok(())
+        }
+        "filter.text" => {
+            // arbitrary text (C09 / C08 REC): parse, print, re-parse
+            let text = if vec.get("utf8").and_then(|b| b.as_bool()) == Some(false) { String::new() } else { text_of(&vec["text"])? };
+            let r = parse_via(wk, &text);
+            out.emit(json!({"op":"filter.text","text":vec["text"],"src":vec["src"],"outcome":r["outcome"],"msg":r["msg"],"tree":r["tree"],
+                "printed":r["printed"],"reparse":r["reparse"]}));
+            Ok(())
+        }
+        "filter.eval" => {
+            let text = text_of(&vec["text"])?;
+            let rec = gamma_tags(&vec["rec"])?;
+            let parsed = parse_via(wk, &text);
+            let mut ev = json!({"op":"filter.eval","f":vec["f"],"text":vec["text"],"rec":vec["rec"],"outcome":parsed["outcome"],
+                "msg":parsed["msg"],"tree":parsed["tree"],"dict_filter":"skipped","eval_ctx":"skipped"});
+            if parsed["outcome"] == "ok" {
+                if let Ok(f) = Filter::try_from(text.as_str()) {
+                    ev["dict_filter"] = truth(guarded(|| rec.filter(&f)));
+                    ev["eval_ctx"] = truth(guarded(|| {
+                        let ctx = EvalContext::make(&rec, &DEFAULT_NS, &rec);
+                        f.eval(&ctx)
+                    }));
+                }
+            }
+            out.emit(ev);
+            Ok(())
+        }
+        "filter.grid" => {
+            let text = text_of(&vec["text"])?;
+            let rows: Vec<Dict> = vec["rows"].as_array().ok_or("rows")?.iter().map(gamma_tags).collect::<Result<_, _>>()?;
+            let parsed = parse_via(wk, &text);
+            let mut ev = json!({"op":"filter.grid","f":vec["f"],"text":vec["text"],"rows":vec["rows"],"outcome":parsed["outcome"],
+                "tree":parsed["tree"],"first":-2,"all":[],"monitor":"skipped"});
+            if parsed["outcome"] == "ok" {
+                if let Ok(f) = Filter::try_from(text.as_str()) {
+                    let grid = Grid::make_from_dicts(rows);
+                    let r = guarded(|| {
+                        let idx = |d: &Dict| grid.rows.iter().position(|r| std::ptr::eq(r, d)).map(|i| i as i64 + 1).unwrap_or(-1);
+                        let first = grid.filter(&f).map(idx).unwrap_or(0);
+                        let all: Vec<i64> = grid.filter_all(&f).into_iter().map(idx).collect();
+                        (first, all)
+                    });
+                    match r {
+                        Ok((first, all)) => {
+                            ev["first"] = J::from(first);
+                            ev["all"] = json!(all);
+                            ev["monitor"] = J::from("ok");
+                        }
+                        Err(_) => ev["monitor"] = J::from("panic"),
+                    }
+                }
+            }
+            out.emit(ev);
+            Ok(())
+        }
+        "filter.weq" => {
+            let text = text_of(&vec["text"])?;
+            let rec = gamma_tags(&vec["rec"])?;
+            let db: Vec<Dict> = vec["db"].as_array().ok_or("db")?.iter().map(gamma_tags).collect::<Result<_, _>>()?;
+            let f = Filter::try_from(text.as_str()).map_err(|e| e.to_string())?;
+            let resolver = DbResolver { db };
+            // evaluation with a cyclic resolver must terminate: run it on a thread with a time limit
+            let (tx, rx) = std::sync::mpsc::channel();
+            std::thread::spawn(move || {
+                let r = guarded(|| {
+                    let ctx = EvalContext::make(&rec, &DEFAULT_NS, &resolver);
+                    f.eval(&ctx)
+                });
+                let _ = tx.send(r);
+            });
+            let t = match rx.recv_timeout(std::time::Duration::from_secs(5)) {
+                Ok(r) => truth(r),
+                Err(_) => J::from("timeout"),
+            };
+            out.emit(json!({"op":"filter.weq","rec":vec["rec"],"db":vec["db"],"path":vec["path"],"target":vec["target"],"text":vec["text"],"truth":t}));
+            Ok(())
+        }
+        "filter.mutants" => {
+            let text = text_of(&vec["text"])?;
+            let full = vec["full"].as_bool().unwrap_or(false);
+            let mut seen = std::collections::HashSet::new();
+            for m in crate::ops_total::mutants(text.as_bytes(), FILTER_REPS, full) {
+                if !seen.insert(m.clone()) {
+                    continue;
+                }
+                out.emit(text_event(wk, &m, "mutant"));
+            }
+            Ok(())
+        }
+        _ => Err(format!("unknown filter op {op}")),
+    }
+}
+
+pub const FILTER_REPS: &[u8] = b"a0Z\"`@^()=!<>*?- \n.:_\xc3T";
+
+fn text_event(wk: &mut Worker, bytes: &[u8], src: &str) -> J {
+    let b: Vec<J> = bytes.iter().map(|x| J::from(*x)).collect();
+    let r = match wk.call(&json!({"w":"filter.parse","bytes":b}), 3000) {
+        Ok(j) => j,
+        Err(f) => json!({"outcome":f,"msg":"","tree":no_tree(),"printed":[],"reparse":{"outcome":"skipped","tree":no_tree()}}),
+    };
+    let (text, utf8) = match std::str::from_utf8(bytes) {
+        Ok(t) => (cps(t), true),
+        Err(_) => (J::Array(b), false),
+    };
+    json!({"op":"filter.text","text":text,"utf8":utf8,"src":src,"outcome":r["outcome"],"msg":r["msg"],"tree":r["tree"],
+        "printed":r["printed"],"reparse":r["reparse"]})
+}
+
+/// REC: random bytes / token soups for the filter parser
+pub fn rec_fuzz(out: &mut Out, seed: u64, n: usize) {
+    let mut rng = Rng::new(seed);
+    let mut wk = Worker::new();
+    let toks: Vec<&str> = vec!["a", "b->c", "not", "and", "or", "(", ")", "==", "!=", "<", "<=", ">", ">=", "*==", "1", "-2.5kW", "\"x\"", "`u`",
+        "@r", "@r \"d\"", "^s", "2021-01-01", "12:00:00", "2021-01-01T00:00:00Z", "2021-01-01T00:00:00-05:00 New_York", "true", "false", "rel?", "->", "-", "\"", "`", "^", "@", "?", "*", "=", "!", "é", "\\", "INF", "-INF", "NaN", "1e", "T", "a->"];
+    for i in 0..n {
+        let bytes: Vec<u8> = if i % 3 == 0 {
+            (0..rng.below(16)).map(|_| if rng.chance(1, 4) { rng.below(256) as u8 } else { *rng.pick(FILTER_REPS) }).collect()
+        } else {
+            let mut s = String::new();
+            for _ in 0..(1 + rng.below(8)) {
+                let tk: &str = toks[rng.below(toks.len())];
+                s.push_str(tk);
+                if rng.chance(2, 3) {
+                    s.push(' ');
+                }
+            }
+            s.into_bytes()
+        };
+        out.emit(text_event(&mut wk, &bytes, "fuzz"));
+    }
 }
